@@ -681,11 +681,18 @@ def to_coq(case, obs):
             g_chan(c), g_oq(o['sint']), g_oq(o['sini']), g_oq(o['sfin']), gQ(F(o.get('rint', 0))), gQ(F(o.get('r0', 0))),
             gQ(F(o.get('rlate', 0))), g_list(gQ(F(x)) for x in o.get('pad', []))))
     gi, gt = G.guard_flags(case)
-    return '(CPulse %s %s %s %s %s %s %s %s %s %s)' % (g_pt(case['pt'], nm), rho, g_oq(obs['sdur']), g_real(obs['real']),
-                                                       g_list(chobs), gQ(F(case.get('pad', '2'))),
-                                                       g_real(obs.get('padded', 'none')),
-                                                       'false' if case.get('src') == 'malformed' else 'true',
-                                                       'true' if gi else 'false', 'true' if gt else 'false')
+    malformed = case.get('src') == 'malformed'
+    cp = '(CPulse %s %s %s %s %s %s %s %s %s %s)' % (g_pt(case['pt'], nm), rho, g_oq(obs['sdur']), g_real(obs['real']),
+                                                     g_list(chobs), gQ(F(case.get('pad', '2'))),
+                                                     g_real(obs.get('padded', 'none')),
+                                                     'false' if malformed else 'true',
+                                                     'true' if gi else 'false', 'true' if gt else 'false')
+    # malformed stream, the program exists although a parameter is missing (the code never evaluates the value of a channel
+    # a MappingPT drops; Spec.denote is strict): the denotation is taken under the parameters completed with 1 (Corr.CLazy)
+    missing = sorted(n for n in G.free_vars(case['pt']) if n not in case['params'] and n in nm)
+    if malformed and obs['real'] not in ('err', 'none') and missing:
+        return '(CLazy %s %s)' % (g_list('(%d%%N, %s)' % (nm[n], gQ(F(1))) for n in missing), cp)
+    return cp
 
 
 # ---------------------------------------------------------------------------------------------------------------------
